@@ -114,9 +114,11 @@ def check_history(case) -> Outcome:
             else:
                 frs[i]["cols"][col] = {"dtype": "object", "values": [["u", "v", "w"][j % 3] for j in range(n_)]}
     frames = [F.build(fr) for fr in frs]
-    for df_ in frames:
+    for i_, df_ in enumerate(frames):
         import pandas as pd
 
+        if i_ % 2 == 0:
+            df_.index.name = "x"  # the index is named like a column that ends up in the model matrix
         df_["pa_col"] = pd.array(np.arange(len(df_), dtype=float), dtype="double[pyarrow]")  # never referenced by a formula
     pristine = [df.copy(deep=True) for df in frames]
     fstrs = [F.formula_string(fc) for fc in case["formulas"]]
@@ -321,6 +323,11 @@ def gen_history():
 # ---------------------------------------------------------------- hash seeds
 
 
+DUP_STATEFUL = [
+    {"intercept": True, "terms": [[{"k": "ctx", "src": "poly(z, 3)"}], [{"k": "ctx", "src": "np.tanh(poly(z, 3))"}]]},
+    {"intercept": False, "terms": [[{"k": "ctx", "src": "np.exp(scale(z))"}], [{"k": "ctx", "src": "scale(z)"}], [{"k": "ctx", "src": "I(scale(z) * 2)"}]]},
+    {"intercept": True, "terms": [[{"k": "ctx", "src": "bs(z, df=4)"}], [{"k": "num", "col": "x"}, {"k": "ctx", "src": "np.sqrt(bs(z, df=4) + 1)"}]]},
+]
 CAT3 = [
     {"intercept": True, "terms": [[{"k": "cat", "col": "A"}, {"k": "cat", "col": "B"}, {"k": "C", "col": "G", "contrast": None}]]},
     {"intercept": True, "terms": [[{"k": "cat", "col": "A"}], [{"k": "cat", "col": "A"}, {"k": "cat", "col": "B"}, {"k": "C", "col": "G", "contrast": None}]]},
@@ -401,6 +408,10 @@ def extra_phase(tier, seed, stats):
         for o in (0, 3, 5):
             for cl in (False, True):
                 cases.append({"frame": fixed_frame, "formula": fc, "opts": o, "twosided": False, "cluster": cl})
+    # the same stateful call inside several factors: which factor fits it first must not show in the bytes
+    for fc in DUP_STATEFUL:
+        for o in (0, 1, 3):
+            cases.append({"frame": fixed_frame, "formula": fc, "opts": o, "twosided": False, "cluster": False})
     seeds = ["0", "1", "2", "3", "17", "4242", "65535", "random"]
     if tier == "thorough":
         seeds += [str(x) for x in (5, 7, 11, 13, 19, 23, 29, 31, 37, 41, 43, 47, 53, 59, 61, 67, 71, 73, 79, 83, 89, 97, 101, 1000003)]
